@@ -224,7 +224,7 @@ def run(rep, tier, rng):
         rep.sample({"text": texts[2 * k], "implementation": S.impl_parse(P, texts[2 * k])})
     small_t = [t for t in texts if len(t) <= 400]
     big_t = [t for t in texts if len(t) > 400]
-    S.correspond(rep, "mutants", variant, small_t, P, shard=1500)
+    S.correspond(rep, "mutants", variant, small_t, P, shard=1500 if thorough else 1100)
     if big_t:
         S.correspond(rep, "mutants-large", variant, big_t, P, shard=40)
 
